@@ -389,8 +389,36 @@ func judge(m *mp.Model, doc *c02.ClassF, rs ruleSet, impl []implPage, seed uint6
 			}
 		}
 		if fits {
-			add("early-end-justified", "", fmt.Sprintf("page %d ends after %s although the next unbreakable unit %s..%s fits on it (model: %s)",
-				i, c02.Tok(ta), c02.Tok(tb), c02.Tok(tstar), ans.Xs[2].String()))
+			// classification of the violation: the breakable box that starts with the unit was pushed to the
+			// next page as a whole although all of its lines fit here — only its trailing bottom
+			// margin / padding / border (or that of its last descendants) does not
+			key := ""
+			x := paraOf[tb]
+			for x.parent != nil && x.parent.first == tb && x.parent.parent != nil && x.parent.parent.parent != nil {
+				x = x.parent
+			}
+			if w, ok := at[x.last]; ok && w.page > i {
+				tr := truncated(doc.Root, x.last)
+				zeroTrailing(tr, tb, x.last)
+				a2, err := m.Ask(sx.L(sx.A("page"), sx.I(80), sx.I(i+1), sx.I(int(p.geom[5]*4)), sx.I(int(p.geom[6]*4)), sx.B(forced), tr.X(), resumeFor(root, a0)))
+				if err != nil {
+					return err
+				}
+				if a2.Head() == "ok" && len(a2.Xs) == 3 && a2.Xs[1].S == "1" && len(a2.Xs[2].Xs) == x.last-a0+1 {
+					all := true
+					for _, l := range a2.Xs[2].Xs {
+						y, _ := strconv.Atoi(l.Xs[1].S)
+						if float64(y)/4+20 > bottom+geomTol {
+							all = false
+						}
+					}
+					if all {
+						key = "box-pushed-for-trailing-decoration"
+					}
+				}
+			}
+			out.Add(res.Finding{Kind: "judge", Op: "judge:early-end-justified", Input: doc.HTML, Impl: fmtImpl(impl), Key: key, Seed: seed, Reason: fmt.Sprintf("page %d ends after %s although the next unbreakable unit %s..%s fits on it (model: %s)",
+				i, c02.Tok(ta), c02.Tok(tb), c02.Tok(tstar), ans.Xs[2].String())})
 		} else {
 			out.Hit("early-end:unit-does-not-fit")
 		}
@@ -441,4 +469,26 @@ func resumeFor(n *node, a0 int) sx.X {
 		}
 	}
 	return sx.A("nil")
+}
+
+// zeroTrailing removes the bottom margin / padding / border of every box of the (truncated) tree that
+// starts at or after token from and ends with token last.
+func zeroTrailing(b *c02.Box, from, last int) {
+	var first, end int
+	var ends func(x *c02.Box) (int, int)
+	ends = func(x *c02.Box) (int, int) {
+		if x.Lines != nil {
+			return x.Lines[0], x.Lines[len(x.Lines)-1]
+		}
+		f, _ := ends(x.Kids[0])
+		_, l := ends(x.Kids[len(x.Kids)-1])
+		return f, l
+	}
+	first, end = ends(b)
+	if first >= from && end == last {
+		b.St.MB, b.St.PB, b.St.BBw = 0, 0, 0
+	}
+	for _, k := range b.Kids {
+		zeroTrailing(k, from, last)
+	}
 }
